@@ -5,6 +5,7 @@
   All results are new values: the original is untouched by construction (pure functions).
 -/
 import SFModel.BlocksLemmas
+import SFModel.BlocksAssignLemmas
 
 namespace SF.C08
 open SF SF.TB
@@ -444,5 +445,122 @@ example : ∃ r, tbEx.astypeBlocks (.slice ⟨some (-1), none, some (-2)⟩) "z"
   obtain ⟨r, h1, h2, h3⟩ := astype_refines tbEx tbEx_wf (.slice ⟨some (-1), none, some (-2)⟩) [3, 1] "z"
     (fun c => c.map (· + 10)) (by decide)
   exact ⟨r, h1, by rw [h2]; decide, by rw [h3]; decide⟩
+
+/-! ### assignment: `TypeBlocks._assign_from_iloc_by_unit` (`Frame.assign[...](value)`, `assign.iloc`, `assign.loc`
+with an element or an array value), model `TB.assignUnit` (BlocksAssign.lean)
+
+Supported keys.  The source says of the column key "must be sorted in ascending order" and, at the
+call of `_key_to_block_slices(column_key, retain_key_order=True)`, "NOTE: this requires column_key to
+be ordered to work; we cannot use retain_key_order=False, as the passed `value` is ordered by that
+key".  `assign_exact` therefore takes EVERY kind of column key (null slice, integer, slice, list,
+Boolean mask) whose positions are strictly ascending — `Frame.assign` makes the key ascending
+(`key_to_ascending_key`) before it calls the generator — and every row key (any order, repeats
+allowed: the last occurrence wins, as in NumPy).  For a column key that is not ascending the
+statement is false for the mirrored generator (`assign_unordered_key_counterexample`).
+
+`assign_original_untouched` is a remark, not a theorem: `TB.assignUnit` is a pure function, the
+`TB` it is applied to is a value and cannot change (on the real code the property module compares a
+snapshot of the original before and after every call). -/
+
+/-- dtype resolution used in the examples: equal dtypes resolve to themselves, others to object -/
+def resEx (a b : DT) : DT := if a = b then a else "O"
+
+/-- Assignment changes only what it addresses.  For a well-formed `tb` with at least one block, any
+    row key, a column key with strictly ascending positions and a value that has a cell for every
+    addressed cell (`AVal.Fits`: an element; a 1-D array — one value per addressed COLUMN when the
+    column key is not an integer, one per addressed ROW when it is; a 2-D array, one column per
+    addressed column in key order), the generator succeeds and
+    * the row count, the column count and well-formedness are kept,
+    * every cell that is not addressed keeps its value,
+    * an addressed cell holds the value's cell for (position of the row in the row key, position of
+      the column in the column key) — for a repeated row position the last occurrence,
+    * an unaddressed column keeps its exact dtype — also when it lives in the same 2-D block as an
+      addressed column (the block is split into before / assigned / after),
+    * an addressed column gets the VALUE's dtype when the row key is the null slice (the sub-block
+      is rebuilt), otherwise `resolve value.dtype block.dtype`. -/
+theorem assign_exact (tb : TB α) (h : tb.WF) (hne : tb.blocks ≠ []) (rk ck : Key) (rps cps : List Nat)
+    (v : AVal α) (resolve : DT → DT → DT)
+    (hrk : rk.positions tb.rows = .ok rps) (hck : ck.positions tb.ncols = .ok cps)
+    (hasc : cps.Pairwise (· < ·)) (hfit : v.Fits rk.isMulti ck.isMulti rps.length cps.length) :
+    ∃ r, tb.assignUnit rk ck v resolve = .ok r ∧ r.WF ∧ r.rows = tb.rows ∧ r.ncols = tb.ncols ∧
+      (∀ j i : Nat, j ∉ cps ∨ i ∉ rps → r.cols[j]?.bind (·[i]?) = tb.cols[j]?.bind (·[i]?)) ∧
+      (∀ kc kr (hc : kc < cps.length) (hr : kr < rps.length),
+         (∀ k', kr < k' → (h' : k' < rps.length) → rps[k'] ≠ rps[kr]) →
+         r.cols[cps[kc]]?.bind (·[rps[kr]]?) = v.cell ck.isMulti kr kc) ∧
+      (∀ j : Nat, j ∉ cps → r.dtypes[j]? = tb.dtypes[j]?) ∧
+      (∀ j : Nat, j ∈ cps → r.dtypes[j]? =
+        tb.dtypes[j]?.map (fun d => if rowIsNull rk then v.dt else resolve v.dt d)) :=
+  tb.assignUnit_cells h hne rk ck rps cps v resolve hrk hck hasc hfit
+
+/-- why `assign_exact` asks for a block: without one the loop body never runs and `from_blocks` has
+    nothing to derive a row count from (ErrorInitTypeBlocks on the real code) -/
+theorem assign_no_blocks (rows : Nat) (rk ck : Key) (v : AVal α) (resolve : DT → DT → DT) :
+    (⟨rows, []⟩ : TB α).assignUnit rk ck v resolve = .error .init := rfl
+
+/-- non-vacuity: `tbEx` has a 2-D block of width 3 (columns 1..3); only its MIDDLE column (2) is
+    addressed, rows [1]; the hypotheses hold, and the model splits the block into before / assigned /
+    after: the neighbours keep dtype "f", the assigned column gets the resolved dtype -/
+example : tbEx.WF ∧ tbEx.blocks ≠ [] ∧ (Key.list [1]).positions tbEx.rows = .ok [1] ∧
+    (Key.int 2).positions tbEx.ncols = .ok [2] ∧ [2].Pairwise (· < ·) ∧
+    (AVal.elem 99 "i").Fits (Key.list [1]).isMulti (Key.int 2).isMulti 1 1 ∧
+    tbEx.assignUnit (.list [1]) (.int 2) (.elem 99 "i") resEx
+      = .ok ⟨2, [.d1 "i" [1, 2], .d2 "f" [[3, 4]], .d1 "O" [5, 99], .d2 "f" [[7, 8]]]⟩ := by
+  refine ⟨tbEx_wf, by decide, by decide, by decide, by decide, trivial, by decide⟩
+
+/-- the theorem instantiated there: the addressed cell, a neighbour in the same 2-D block, its dtype -/
+example : ∃ r, tbEx.assignUnit (.list [1]) (.int 2) (.elem 99 "i") resEx = .ok r ∧
+    r.cols[2]?.bind (·[1]?) = some 99 ∧ r.cols[2]?.bind (·[0]?) = some 5 ∧
+    r.cols[3]?.bind (·[1]?) = some 8 ∧ r.dtypes[1]? = some "f" ∧ r.dtypes[3]? = some "f" ∧
+    r.dtypes[2]? = some "O" := by
+  obtain ⟨r, h1, _, _, _, h5, h6, h7, h8⟩ := assign_exact tbEx tbEx_wf (by decide) (.list [1]) (.int 2) [1] [2]
+    (.elem 99 "i") resEx (by decide) (by decide) (by decide) trivial
+  refine ⟨r, h1, ?_, ?_, ?_, ?_, ?_, ?_⟩
+  · exact h6 0 0 (by decide) (by decide) (by intro k' hk h'; simp at h'; omega)
+  · rw [h5 2 0 (Or.inr (by decide))]; decide
+  · rw [h5 3 1 (Or.inl (by decide))]; decide
+  · rw [h7 1 (by decide)]; decide
+  · rw [h7 3 (by decide)]; decide
+  · rw [h8 2 (by decide)]; decide
+
+/-- null row key, a 2-D value, a mask key addressing the middle column of the block and the 1-D
+    block: the sub-blocks are rebuilt with the VALUE's dtype, value columns are consumed in key order -/
+example : (Key.mask [true, false, true, false]).positions tbEx.ncols = .ok [0, 2] ∧
+    (AVal.mat [[10, 11], [20, 21]] "z").Fits Key.all.isMulti (Key.mask [true, false, true, false]).isMulti 2 2 ∧
+    tbEx.assignUnit .all (.mask [true, false, true, false]) (.mat [[10, 11], [20, 21]] "z") resEx
+      = .ok ⟨2, [.d1 "z" [10, 11], .d2 "f" [[3, 4]], .d2 "z" [[20, 21]], .d2 "f" [[7, 8]]]⟩ := by
+  refine ⟨by decide, ⟨rfl, rfl, by decide⟩, by decide⟩
+
+/-- a 1-D value with a non-integer column key is read along the addressed COLUMNS (one value per
+    column, repeated down the addressed rows); with an integer column key along the addressed rows -/
+example :
+    (tbEx.assignUnit (.slice ⟨none, none, some 1⟩) (.slice ⟨some 1, some 3, none⟩) (.col [10, 20] "f") resEx).map TB.cols
+      = .ok [[1, 2], [10, 10], [20, 20], [7, 8]] ∧
+    (tbEx.assignUnit (.slice ⟨none, none, some 1⟩) (.int 2) (.col [10, 20] "f") resEx).map TB.cols
+      = .ok [[1, 2], [3, 4], [10, 20], [7, 8]] := by
+  refine ⟨by decide, by decide⟩
+
+/-- `assign_exact` needs the ascending column key: for the key `[2, 0]` (positions `[2, 0]`, a
+    fitting 2-D value whose FIRST column is meant for column 2 and whose second for column 0) the
+    mirrored generator stores the first value column in column 2 and NEVER reaches the target of
+    column 0 again — the walk over the blocks has passed block 0 when that target comes up — so
+    column 0, though addressed, keeps its cells: the cell statement of `assign_exact` fails.
+    `Frame.assign` avoids this by sorting the key first (`key_to_ascending_key`); the value is then
+    consumed in ASCENDING column order, not in the caller's key order (third conjunct: with the
+    sorted key `[0, 2]` the first value column lands in column 0) — observation F14. -/
+theorem assign_unordered_key_counterexample :
+    (Key.list [2, 0]).positions (⟨2, [.d1 "a" [1, 2], .d1 "b" [3, 4], .d1 "c" [5, 6]]⟩ : TB Nat).ncols = .ok [2, 0] ∧
+    ((⟨2, [.d1 "a" [1, 2], .d1 "b" [3, 4], .d1 "c" [5, 6]]⟩ : TB Nat).assignUnit .all (.list [2, 0])
+        (.mat [[10, 11], [20, 21]] "a") resEx).map TB.cols = .ok [[1, 2], [3, 4], [10, 11]] ∧
+    ((⟨2, [.d1 "a" [1, 2], .d1 "b" [3, 4], .d1 "c" [5, 6]]⟩ : TB Nat).assignUnit .all (.list [0, 2])
+        (.mat [[10, 11], [20, 21]] "a") resEx).map TB.cols = .ok [[10, 11], [3, 4], [20, 21]] ∧
+    -- the cell statement of `assign_exact` at (row 0, second key column = column 0):
+    ¬ (((⟨2, [.d1 "a" [1, 2], .d1 "b" [3, 4], .d1 "c" [5, 6]]⟩ : TB Nat).assignUnit .all (.list [2, 0])
+        (.mat [[10, 11], [20, 21]] "a") resEx).toOption.bind (fun r => r.cols[0]?.bind (·[0]?))
+      = (AVal.mat [[10, 11], [20, 21]] "a").cell true 0 1) := by
+  decide
+
+/-- the value of the counterexample fits the key (so only the ascending hypothesis is missing) -/
+example : (AVal.mat [[10, 11], [20, 21]] "a" : AVal Nat).Fits Key.all.isMulti (Key.list [2, 0]).isMulti 2 2 :=
+  ⟨rfl, rfl, by decide⟩
 
 end SF.C08
